@@ -541,15 +541,21 @@ class Verifier(Exec):
                 st.assume(self.spec(txt, ctx0, state=st))
             pre.pc = list(st.pc)
             pre.heap = dict(st.heap)
-            # cover: the precondition is satisfiable
-            self.covers.append(("%s:cover:requires[%s]" % (con.name, case), list(st.pc)))
             self.cur_stack = [con]
             self.entry_stack = [pre]
+            # instances of separately proved lemmas / definitions (contract ghost
+            # 'lemma_instances'): part of what the cover query must find satisfiable
+            cover_pc = list(st.pc)
+            from .engine import _has_quant
+            for nm, txt in con.ghost.get("lemma_instances", {}).items():
+                f = self.spec(txt, ctx0, state=st)
+                st.assume(f)
+                if not _has_quant(f):       # grounded definitions take part in the cover query;
+                    cover_pc.append(f)      # quantified instances of PROVED lemmas cannot make it vacuous
+            # cover: the precondition (with the assumed definitions) is satisfiable
+            self.covers.append(("%s:cover:requires[%s]" % (con.name, case), cover_pc))
             if cover_only:
                 continue
-            # instances of separately proved lemmas (contract ghost 'lemma_instances')
-            for nm, txt in con.ghost.get("lemma_instances", {}).items():
-                st.assume(self.spec(txt, ctx0, state=st))
             st.trace.append(case)
             outs = self.block(fdef.body, st)
             for s, o in outs:
@@ -597,6 +603,16 @@ class Verifier(Exec):
             self.frame_obligations(con, pre, s, "post")
         elif o[0] == "raise":
             ecls = o[1].x[0]
+            local_env = dict(s.env)
+            if isinstance(o[1].z, list):
+                local_env["exc_args"] = SV("tuple", None, o[1].z)
+            # ghost assertions at the raise site (locals visible): "this refusal is justified"
+            for nm, txt in (con.ghost.get("at_raise", {}).get(ecls) or {}).items():
+                try:
+                    goal = self.spec(txt, ctx, env=local_env, state=s)
+                except Unsupported as e:
+                    goal = z3.BoolVal(False)
+                self.oblige(s, "%s:at-raise[%s]:%s" % (con.name, ecls, nm), goal)
             s.env = dict(pre.env)
             if isinstance(o[1].z, list):
                 s.env["exc_args"] = SV("tuple", None, o[1].z)
